@@ -25,6 +25,7 @@ NETS = {
     "chain3": dict(pools={"A": 3, "B": 3}, inner=({"A": -1, "B": 1}, ["A"]), inn=["A"], out=["B"]),
     "merge": dict(pools={"A": 1, "B": 1, "C": 2}, inner=({"A": -1, "B": -1, "C": 1}, ["A", "B"]), inn=["A", "B"], out=["C"]),
     "split": dict(pools={"C": 2, "A": 1, "B": 1}, inner=({"C": -1, "A": 1, "B": 1}, ["C"]), inn=["C"], out=["A", "B"]),
+    "exchange": dict(pools={"A": 1, "B": 1, "C": 1, "D": 1}, inner=({"A": -1, "B": -1, "C": 1, "D": 1}, ["A", "B"]), inn=["A", "B"], out=["C", "D"]),
     "two_steps": dict(pools={"A": 2, "B": 2, "C": 2}, inner=({"A": -1, "B": 1}, ["A"]), inner2=({"B": -1, "C": 1}, ["B"], (1, 0)), inn=["A"], out=["C"]),
     # species declared in non-alphabetical order with asymmetric label counts (involutive maps only, see the open finding)
     "merge_qp": dict(pools={"Q": 2, "P": 1, "R": 3}, inner=({"Q": -1, "P": -1, "R": 1}, ["Q", "P"]), inn=["Q", "P"], out=["R"], involutive=True),
